@@ -6,7 +6,11 @@ import NitroVerif.Lemmas.LoaderHeap
 Property theorems only. Model: `NitroVerif/Model/Loader.lean` (tied to
 `crates/graphql-loader/src/{main,tasks,loader}.rs` by the correspondence check `harness/src/bin/c19.rs`,
 which drives the real `extern "C"` functions call by call).
-All theorems quantify over every parser / path resolver / emitter (`env`) and every history.
+All theorems quantify over every parser / path resolver / emitter (`env`) and every history
+(`C19_isolation` / `C19_no_trap`: histories of the five task calls, without a stand-alone `get_result`, which traps on an
+empty RESULT cell; the theorems about the answer of one call assume the instance has not trapped, `dead = false`).
+The heap of the model is a ghost record of the leak / free protocol: the allocator, pointers and the wasm ABI are not
+modelled, on the real code they are only observed by the harness (checking allocator, child processes).
 
 CONCRETE EMITTER (second stage, `Props/C19Composed.lean`): `env.emit` instantiated with import resolution (C13's model)
 + `find_undefined_fragment_spread` (fix 08fd7e5) + the JavaScript-module model (C14's statements, C12's document
